@@ -60,11 +60,22 @@ Inductive spec :=
 | FirstOpen (f : Z)       (* "f-"  *)
 | Suffix (n : Z).         (* "-n"  *)
 
-Definition spec_of_pair (p : list N * list N) : spec :=
+(* number(): int(), and for a run of more digits than int() accepts a position beyond
+   any file, max_size + 1 *)
+Fixpoint strip_zeros (s : list N) : list N :=
+  match s with
+  | 48%N :: r => strip_zeros r          (* digits.lstrip("0") *)
+  | _ => s
+  end.
+
+Definition number (size : Z) (s : list N) : Z :=
+  if too_long (strip_zeros s) then size + 1 else digits_val (strip_zeros s).
+
+Definition spec_of_pair (size : Z) (p : list N * list N) : spec :=
   match p with
-  | ([], b) => Suffix (digits_val b)
-  | (a, []) => FirstOpen (digits_val a)
-  | (a, b) => FirstLast (digits_val a) (digits_val b)
+  | ([], b) => Suffix (number size b)
+  | (a, []) => FirstOpen (number size a)
+  | (a, b) => FirstLast (number size a) (number size b)
   end.
 
 Definition spec_start (size : Z) (s : spec) : Z :=
@@ -182,6 +193,5 @@ Definition parse_range (header : list N) (size : Z) : outcome :=
       if negb (list_N_eqb unit (lit "bytes")) then Malformed
       else
         let ps := header_pairs rest in
-        if existsb pair_too_long ps then Unsatisfiable
-        else resolve size (map spec_of_pair ps)
+        resolve size (map (spec_of_pair size) ps)
   end.
